@@ -36,6 +36,7 @@ type c08Req struct {
 	thread  int
 	run     int // uploader run number (concurrent ones first, then sequential re-runs)
 	valid   bool
+	status  int // HTTP status answered (0: no answer)
 }
 
 type c08World struct {
@@ -48,7 +49,16 @@ type c08World struct {
 	viol     string
 	violSig  string              // signature of the violation, matched against known-findings.txt
 	log      func() []vhook.Call // the controller's operation log so far
+	codeBase int                 // where in c08ClientCodes / c08ServerCodes this world starts
+	n4xx     int
+	n5xx     int
 }
+
+// Status codes standing for "client error" and "server error".
+var (
+	c08ClientCodes = []int{400, 404, 408, 429, 413, 401, 403, 410, 422, 451, 499}
+	c08ServerCodes = []int{503, 500, 502, 504, 507, 599}
+)
 
 // c08IncompleteRead reports whether some uploader read local/<week>.json between another
 // uploader's exclusive creation of that file and the write of its content.
@@ -165,14 +175,20 @@ func (w *c08World) post(thread int, url string, body []byte) (int, error) {
 			}
 		}
 	}
-	w.reqs = append(w.reqs, r)
 	switch outcome {
 	case "200":
-		return 200, nil
+		r.status = 200
 	case "400":
-		return 400, nil
+		// any client error: the codes are cycled through in the order of the requests
+		w.n4xx++
+		r.status = c08ClientCodes[(w.codeBase+w.n4xx)%len(c08ClientCodes)]
 	case "500":
-		return 503, nil
+		w.n5xx++
+		r.status = c08ServerCodes[(w.codeBase+w.n5xx)%len(c08ServerCodes)]
+	}
+	w.reqs = append(w.reqs, r)
+	if r.status != 0 {
+		return r.status, nil
 	}
 	return 0, fmt.Errorf("Post %q: connection reset by peer", url)
 }
@@ -234,7 +250,7 @@ func TestVerifC08Deliver(t *testing.T) {
 		}
 		vuWriteFiles(dir, append(append([]*vmodel.CountFile(nil), files...), keep...))
 
-		w := &c08World{t: t, dir: dir, runOf: map[int]int{}, strict: rapid.Bool().Draw(t, "strictServer")}
+		w := &c08World{t: t, dir: dir, runOf: map[int]int{}, strict: rapid.Bool().Draw(t, "strictServer"), codeBase: rapid.IntRange(0, 65).Draw(t, "statusCodes")}
 		nout := rapid.IntRange(0, 10).Draw(t, "noutcomes")
 		retryPattern := false
 		for i := 0; i < nout; i++ {
@@ -456,6 +472,25 @@ func TestVerifC08Deliver(t *testing.T) {
 				t.Fatalf("re-run %d: %s", r, w.viol)
 			}
 			c08Attribution(t, ctl2.Log, w, before)
+			// a report answered with a client error (whichever 4xx code) by this sequential run is discarded:
+			// it is gone from local/ and is not marked as uploaded
+			for _, q := range w.reqs[before:] {
+				if q.outcome != "400" {
+					continue
+				}
+				if _, err := os.Stat(filepath.Join(dir, "local", q.week+".json")); err == nil {
+					t.Fatalf("re-run %d: week %s was answered with a client error (%d) but its report is still in local/: it will be sent again", r, q.week, q.status)
+				}
+				ackedBefore := false
+				for _, o := range w.reqs {
+					if o.week == q.week && o.acked {
+						ackedBefore = true
+					}
+				}
+				if _, err := os.Stat(filepath.Join(dir, "upload", q.week+".json")); err == nil && !ackedBefore {
+					t.Fatalf("re-run %d: week %s was answered with a client error (%d) and never acknowledged, but is marked as uploaded", r, q.week, q.status)
+				}
+			}
 			// a report left in place by a 5xx / lost answer is requested again by a later run
 			// (unless a crashed uploader left its lock behind)
 			for _, q := range w.reqs[:before] {
@@ -908,7 +943,7 @@ func c08RunScn(t *rapid.T, base string, s *c08Scn, replay []int, killAt map[int]
 	vuSetMode(dir, "on 2000-01-01")
 	os.MkdirAll(filepath.Join(dir, "upload"), 0777)
 	vuWriteFiles(dir, s.files)
-	w := &c08World{t: t, dir: dir, runOf: map[int]int{}, strict: s.strict, outcomes: append([]string(nil), s.outcomes...)}
+	w := &c08World{t: t, dir: dir, runOf: map[int]int{}, strict: s.strict, outcomes: append([]string(nil), s.outcomes...), codeBase: len(s.outcomes) + len(s.files)}
 	x := 0.25
 	newCtl := func() *vhook.Controller {
 		ctl := vhook.New()
